@@ -433,7 +433,13 @@ def stacks_for(tier):
     for st in (["S"], ["Ls"], ["S", "Ls"], ["L", "S"]):
         out.append((st, True, None))
         out.append((st, False, None))
-    return out
+    seen, uniq = set(), []
+    for st, nd, sf in out:
+        key_ = (tuple(st), nd, tuple(sf) if sf is not None else None)
+        if key_ not in seen:
+            seen.add(key_)
+            uniq.append((st, nd, sf))
+    return uniq
 
 
 def build(tier="quick", seed=0):
